@@ -429,6 +429,126 @@ def gen_spec(rng, cls=None, route=None, mn=None, aniso=1.0):
     return spec
 
 
+EPS_SWEEP = [0.0, 1e-12, 1e-10, 1e-9, 1e-8, 3e-8, 1e-7, 3e-7, 1e-6, 1e-5, 3e-5, 1e-4, 3e-4, 1e-3, 1e-2, 1e-1]
+SWEEP_BKINDS = ['general', 'general', 'general', 'inplane', 'climb', 'tiny-n', 'small-n']
+
+
+def iso_cij(lam, mu, scale=1.0):
+    np = _np()
+    c = np.zeros((6, 6))
+    c[:3, :3] = lam
+    for i in range(3):
+        c[i, i] = lam + 2 * mu
+        c[i + 3, i + 3] = mu
+    return c * scale
+
+
+def gen_aniso_dir(rng, cls):
+    """a direction D in stiffness space with the shape of the crystal class `cls`, max |D| = 1: the media of one sweep
+    are  C(eps) = C_iso + eps mu D,  eps = 0 .. 0.1  (for `cubic`: Zener ratio - 1 proportional to eps)."""
+    np = _np()
+    d = np.zeros((6, 6))
+
+    def sym(i, j, v):
+        d[i, j] = d[j, i] = v
+
+    def u():
+        return rng.uniform(-1, 1)
+    if cls == 'cubic':
+        for i in range(3):
+            d[i + 3, i + 3] = rng.choice([1.0, -1.0])
+        v = u() * 0.5
+        for (i, j) in ((0, 1), (0, 2), (1, 2)):
+            sym(i, j, v)
+    elif cls in ('hexagonal', 'tetragonal', 'rhombohedral'):
+        sym(0, 2, u()); sym(1, 2, d[0, 2])
+        d[2, 2] = u(); d[3, 3] = d[4, 4] = u()
+        sym(0, 1, u()); d[0, 0] = d[1, 1] = u()
+        d[5, 5] = (d[0, 0] - d[0, 1]) / 2
+        if cls == 'tetragonal':
+            d[5, 5] = u()
+        if cls == 'rhombohedral':
+            v = u()
+            sym(0, 3, v); sym(1, 3, -v); sym(4, 5, v)
+    elif cls in ('orthorhombic', 'monoclinic'):
+        for i in range(6):
+            d[i, i] = u()
+        for (i, j) in ((0, 1), (0, 2), (1, 2)):
+            sym(i, j, u())
+        if cls == 'monoclinic':
+            for (i, j) in ((0, 5), (1, 5), (2, 5), (3, 4)):
+                sym(i, j, u())
+    else:
+        for i in range(6):
+            for j in range(i, 6):
+                sym(i, j, u())
+    d = d / np.abs(d).max()
+    return [[float(v) for v in row] for row in d]
+
+
+def gen_sweep(rng, cls=None, bkind=None):
+    """one isotropic base medium, one anisotropy direction, one orientation and one Burgers vector given by its
+    components along m, n, ξ (general: all three non-zero); the dispatcher is run at every eps of EPS_SWEEP."""
+    np = _np()
+    sw = gen_spec(rng, cls='isotropic')
+    sw['dcls'] = cls or rng.choice(CLASSES)
+    sw['lam'], sw['mu'] = rng.uniform(0.3, 1.6), rng.uniform(0.4, 1.2)
+    sw['scale'] = rng.choice([1.0, 1.0, 160.25, 0.0078125])
+    sw['dir'] = gen_aniso_dir(rng, sw['dcls'])
+    sw['cij'] = None
+    bkind = bkind or rng.choice(SWEEP_BKINDS)
+    sg = lambda: rng.choice([1.0, -1.0])         # noqa: E731
+    be, bn_, bs = (sg() * rng.uniform(0.3, 1.5) for _ in range(3))
+    if bkind == 'inplane':
+        bn_ = 0.0
+        if rng.random() < 0.3:
+            be, bs = rng.choice([(be, 0.0), (0.0, bs)])
+    elif bkind == 'climb':
+        be, bs = rng.choice([(0.0, 0.0), (0.0, bs), (be, 0.0)])
+    elif bkind in ('tiny-n', 'small-n'):
+        m, n = mn_vectors(sw)
+        bmax = float(np.abs(be * m + bs * np.cross(m, n)).max())
+        f = rng.choice([0.25e-8, 0.5e-8, 1e-12]) if bkind == 'tiny-n' else rng.choice([2e-8, 1e-6, 1e-3, 4e-8])
+        bn_ = sg() * f * bmax
+    sw['bkind'] = 'frame:' + bkind
+    sw['burgers'] = 'frame'
+    sw['bframe'] = [float(be), float(bn_), float(bs)]
+    return sw
+
+
+def sweep_spec(sw, eps):
+    np = _np()
+    spec = dict(sw)
+    c = iso_cij(sw['lam'], sw['mu']) + eps * sw['mu'] * np.array(sw['dir'])
+    spec['cij'] = [[float(v) for v in row] for row in (c * sw['scale'])]
+    spec['cls'] = sw['dcls'] if eps else 'isotropic'
+    return spec
+
+
+def iso_full_oracle(mu, nu, be, bn_, bs, x, y):
+    """the complete closed-form isotropic solution (Hirth & Lothe; the part for b along n is the edge solution turned by
+    90 degrees with its cut moved back to the half-plane y = 0, x < 0), independent of the implementation: components
+    in the m, n, ξ frame of the displacement (up to a rigid translation), strain and stress."""
+    np = _np()
+    r2 = x * x + y * y
+    th = math.atan2(y, x)
+    a = 1 / (2 * math.pi)
+    q = 1 / (4 * (1 - nu))
+    um = a * (be * (th + 2 * q * x * y / r2) + bn_ * ((1 - 2 * nu) * q * math.log(r2) + q * (y * y - x * x) / r2))
+    un = a * (be * (-(1 - 2 * nu) * q * math.log(r2) - q * (x * x - y * y) / r2) + bn_ * (th - 2 * q * x * y / r2))
+    uz = a * bs * th
+    D = mu / (2 * math.pi * (1 - nu))
+    sxx = D * (-be * y * (3 * x * x + y * y) + bn_ * x * (x * x - y * y)) / r2 ** 2
+    syy = D * (be * y * (x * x - y * y) + bn_ * x * (x * x + 3 * y * y)) / r2 ** 2
+    sxy = D * (be * x * (x * x - y * y) + bn_ * y * (x * x - y * y)) / r2 ** 2
+    szz = nu * (sxx + syy)
+    sxz = -mu * bs / (2 * math.pi) * y / r2
+    syz = mu * bs / (2 * math.pi) * x / r2
+    S = np.array([[sxx, sxy, sxz], [sxy, syy, syz], [sxz, syz, szz]])
+    E = (S - nu / (1 + nu) * (sxx + syy + szz) * np.eye(3)) / (2 * mu)
+    return np.array([um, un, uz]), E, S
+
+
 def mn_vectors(spec):
     np = _np()
     ax = {'x': [1.0, 0.0, 0.0], 'y': [0.0, 1.0, 0.0], 'z': [0.0, 0.0, 1.0]}
@@ -446,7 +566,12 @@ def resolve_burgers(spec):
     m, n = mn_vectors(spec)
     xi = np.cross(m, n)
     s = spec.get('bsize', 1.0)
-    want = {'edge': s * m, 'screw': s * xi, 'mixed': s * (0.5 * m + 0.75 * xi), 'climb': s * (0.5 * m + 0.25 * n - 0.5 * xi)}[spec['burgers']]
+    if spec['burgers'] == 'frame':
+        be, bn_, bs = spec['bframe']            # components along m, n, ξ of the solver frame
+        want = be * m + bn_ * n + bs * xi
+    else:
+        want = {'edge': s * m, 'screw': s * xi, 'mixed': s * (0.5 * m + 0.75 * xi),
+                'climb': s * (0.5 * m + 0.25 * n - 0.5 * xi)}[spec['burgers']]
     T = np.eye(3)
     if spec['route'] == 'miller':
         import atomman as am
@@ -937,6 +1062,45 @@ def gen_iso_spec(rng):
     return spec
 
 
+def _dispatch_case(ctx, sw, eps):
+    """solve_volterra_dislocation and the acceptance of the isotropic solver against the model's `dispatch` /
+    `isoInPlaneOk`: inputs of the model are the outcome of the real Stroh attempt, the value of C.is_normal('isotropic',
+    atol=0, rtol=1e-4) (property C11) and the rotated Burgers vector and n axis as stored by the base class."""
+    import atomman as am
+    np = _np()
+    spec = sweep_spec(sw, eps)
+    rep = {'op': 'dispatch', 'sweep': sw, 'eps': eps}
+    C = am.ElasticConstants(Cij=np.array(spec['cij'], dtype=float))
+    try:
+        base = am.defect.VolterraDislocation(C, resolve_burgers(spec), **solver_kwargs(spec))
+    except Exception as e:  # noqa
+        ctx.disagree('dispatch:base-raises', f'orientation handling refused a valid orientation: {type(e).__name__}: {e}', rep)
+        return
+    oS, oI = _outcome(spec, 'stroh'), _outcome(spec, 'iso')
+    oA, A = _outcome_obj(spec, 'auto')
+    impl = oA if oA != 'ok' else type(A).__name__
+    iso_n = bool(C.is_normal('isotropic', atol=0.0, rtol=1e-4))
+    ctx.stats.case('dispatch', (eps, str(spec['cij']), tuple(base.burgers), tuple(base.n)),
+                   sample={'op': 'solve_volterra_dislocation', 'eps': eps, 'anisotropy': sw['dcls'], 'b_frame': sw['bframe'],
+                           'stroh': oS, 'iso': oI, 'returned': impl})
+    if oS not in ('ok', 'err:value') or oI not in ('ok', 'err:value'):
+        ctx.disagree('dispatch:raises', f'a solver raised something else than ValueError: Stroh {oS}, isotropic {oI}', rep)
+        return
+    tail = f'{cm.frs(base.burgers)} {cm.frs(base.n)}'
+    out = ctx.driver.ask(f'dispatch {cm.fr(spec["tol"])} {int(oS == "ok")} {int(iso_n)} {tail}')
+    model = out if out.startswith('err:') else {1: 'Stroh', 2: 'IsotropicVolterraDislocation'}.get(int(cm.unfrs(out)[0]), out)
+    if model != impl:
+        ctx.disagree('dispatch', f'solve_volterra_dislocation gives {impl}, the model {model} (anisotropy {eps}, Stroh alone: {oS}, '
+                     f'is_normal(isotropic): {iso_n}, b = {base.burgers.tolist()}, n = {base.n.tolist()})', rep)
+    out = ctx.driver.ask(f'dispatch {cm.fr(spec["tol"])} 0 {int(iso_n)} {tail}')
+    model = 'err:value' if out.startswith('err:') else 'ok'
+    if out.startswith('err:') and out != 'err:value':
+        ctx.disagree('dispatch:driver-error', f'model refused: {out}', rep)
+    elif model != oI:
+        ctx.disagree('iso:accept', f'IsotropicVolterraDislocation: {oI}, the model (is_normal and |b.n| <= tol max|b|): {model} '
+                     f'(anisotropy {eps}, is_normal(isotropic): {iso_n}, b = {base.burgers.tolist()}, n = {base.n.tolist()})', rep)
+
+
 def correspond(ctx):
     np = _np()
     rng = ctx.rng
@@ -974,6 +1138,12 @@ def correspond(ctx):
     for spec in gen_refusals(rng, ctx.n(36, 270)):
         _refusal_case(ctx, spec)
     ctx.extra['t_iso_refusals_s'] = round(time.time() - t1, 2)
+    t2 = time.time()
+    for it in range(ctx.n(14, 84)):
+        sw = gen_sweep(rng, cls=CLASSES[it % len(CLASSES)], bkind=SWEEP_BKINDS[(it + it // 7) % len(SWEEP_BKINDS)])
+        for eps in EPS_SWEEP:
+            _dispatch_case(ctx, sw, eps)
+    ctx.extra['t_dispatch_s'] = round(time.time() - t2, 2)
 
 
 
@@ -1047,7 +1217,7 @@ def _clauses(ctx, spec, s, rng, kind):
             ctx.violate('K:coeff', f'K_coeff {s.K_coeff}, preln {s.preln} are not b.K.b/b.b and b.K.b/4pi', rep0)
     # ---- K is the traction coefficient of the slip plane: sigma(X m) . n = K b / (2 pi X) ----------------------
     if not np.iscomplexobj(K):
-        beff = b if kind == 'stroh' else b.dot(s.m) * s.m + b.dot(s.ξ) * s.ξ
+        beff = b          # the isotropic solver refuses what its closed form cannot carry (repo fix 9765d33)
         for X in (1.0, 0.25, 7.0):
             tr = s.stress(X * s.m + 0.5 * s.ξ).dot(s.n)
             want = K.dot(beff) / (2 * math.pi * X)
@@ -1130,7 +1300,7 @@ def _clauses(ctx, spec, s, rng, kind):
             ctx.violate(f'{kind}:jump-complex', f'{kind}: displacement next to the cut is complex', rep)
             continue
         jump = uu[0] - uu[1]
-        beff = b if kind == 'stroh' else b.dot(s.m) * s.m + b.dot(s.ξ) * s.ξ     # the isotropic solver is for b in the slip plane
+        beff = b
         if float(np.abs(jump - beff).max()) > 1e-6 * bn:
             ctx.violate(f'{kind}:burgers-jump', f'{kind}: displacement jump across the cut at distance {r} is {jump.tolist()}, '
                         f'Burgers vector {beff.tolist()}', rep)
@@ -1278,58 +1448,223 @@ def _search_refusals(ctx, rng, k):
                             f'refused with a ValueError, got: {g}', rep)
 
 
-def _iso_limit(ctx, rng):
-    """the anisotropic solution approaches the closed-form isotropic one as the anisotropy vanishes; the dispatcher
-    picks the isotropic solver exactly for isotropic constants."""
+def _outcome_obj(spec, which):
+    """('ok', solver) | ('err:value' | 'err:assert' | 'raised X', message)"""
+    try:
+        return 'ok', build(spec, which)
+    except AssertionError as e:
+        return 'err:assert', str(e)
+    except ValueError as e:
+        return 'err:value', str(e)
+    except Exception as e:  # noqa
+        return f'raised {type(e).__name__}', str(e)
+
+
+def _jump(s, r, z=0.0, dlt=1e-8):
+    np = _np()
+    uu = s.displacement(np.array([_frame_point(s, r, math.pi - dlt, z), _frame_point(s, r, -math.pi + dlt, z)]))
+    return uu[0] - uu[1]
+
+
+SWEEP_PTS = [(1.0, 0.7, 0.0), (0.2, -2.0, 1.5), (9.0, 2.9, 0.0), (3.0, -0.4, -20.0)]
+LIMIT_C, LIMIT_FLOOR = 3.0, 1e-7     # |solution(eps) - isotropic closed form| <= LIMIT_C eps + LIMIT_FLOOR (observed <= 0.3 eps)
+
+
+def _dispatch_sweep(ctx, sw, rng, clauses=True):
+    """solve_volterra_dislocation over the whole anisotropy range C(eps) = C_iso + eps mu D, eps = 0 .. 0.1, for one
+    orientation and one Burgers vector with prescribed components along m, n, ξ:
+      * what is accepted / refused (Stroh alone, the isotropic solver alone, the dispatcher) against the regime oracle:
+        exactly isotropic + in-plane b -> isotropic solver; out-of-plane b is never given the closed form that cannot
+        carry it; eps >= 1e-5 in a non-degenerate orientation -> Stroh; whatever one of the solvers solves the
+        dispatcher solves, with that solver's fields;
+      * whatever the dispatcher returns: displacement jump across the cut = its Burgers vector;
+      * the returned solution is within LIMIT_C eps + LIMIT_FLOOR of the complete closed-form isotropic solution for the
+        *whole* Burgers vector (independent oracle iso_full_oracle), and changes by no more than that between
+        neighbouring eps: the anisotropic solution approaches the isotropic one as the anisotropy vanishes."""
     import atomman as am
     np = _np()
-    spec0 = gen_iso_spec(rng)
-    spec0['burgers'] = resolve_burgers(spec0)
-    try:
-        iso = build(spec0, 'iso')
-        auto = build(spec0, 'auto')
-    except Exception as e:  # noqa
-        ctx.violate('iso:raises', f'isotropic problem refused: {type(e).__name__}: {e}', {'op': 'iso-limit', 'spec': spec0})
-        return
-    rep = {'op': 'iso-limit', 'spec': spec0}
-    ctx.stats.case('oracle:dispatch', str(spec0), sample={'op': 'solve_volterra_dislocation', 'returned': type(auto).__name__})
-    if type(auto) is not am.defect.IsotropicVolterraDislocation:
-        ctx.violate('dispatch:isotropic', f'solve_volterra_dislocation returned {type(auto).__name__} for isotropic constants', rep)
-    bn = float(np.linalg.norm(iso.burgers))
-    pts = np.array([_frame_point(iso, r, th) for r, th in ((1.0, 0.7), (0.2, -2.0), (9.0, 2.9), (3.0, -0.4))])
+    tol = sw['tol']
+    be, bn_, bs = sw['bframe']
+    m, n = mn_vectors(sw)
+    xi = np.cross(m, n)
+    blab = be * m + bn_ * n + bs * xi
+    bmax, bnorm = float(np.abs(blab).max()), float(np.linalg.norm(blab))
+    inplane = 'yes' if abs(bn_) <= 0.5 * tol * bmax else ('no' if abs(bn_) >= 2 * tol * bmax else 'unclear')
+    mu = sw['mu'] * sw['scale']
+    nu = sw['lam'] / (2 * (sw['lam'] + sw['mu']))
+    T = np.array([m, n, xi])
+    fpts = SWEEP_PTS + [(rng.choice([0.05, 1.0, 40.0]), rng.uniform(-3.0, 3.0), rng.uniform(-3, 3))]
+    P = np.array([r * math.cos(t) * m + r * math.sin(t) * n + z * xi for r, t, z in fpts])
+    rr = np.array([r for r, _, _ in fpts])
+    orc = [iso_full_oracle(mu, nu, be, bn_, bs, r * math.cos(t), r * math.sin(t)) for r, t, _ in fpts]
+    Uo = np.array([T.T.dot(o[0]) for o in orc])
+    Eo = np.array([T.T.dot(o[1]).dot(T) for o in orc])
+    So = np.array([T.T.dot(o[2]).dot(T) for o in orc])
+    Ko = T.T.dot(np.diag([mu / (1 - nu), mu / (1 - nu), mu])).dot(T)
+    degenerate = _outcome_obj(sweep_spec(sw, EPS_SWEEP[-1]), 'stroh')[0] != 'ok'
+    label = (f'{sw["dcls"]}-shaped anisotropy, route {sw["route"]}, m={sw["m"]}, n={sw["n"]}, b along (m, n, ξ) = '
+             f'{sw["bframe"]}')
     prev = None
-    for eps in (1e-2, 1e-3):
-        spec = dict(spec0)
-        c = np.array(spec0['cij'])
-        mu = c[3, 3]
-        for i in range(3):
-            c[i + 3, i + 3] += eps * mu          # cubic anisotropy of relative size eps
-        c[0, 1] -= 0.5 * eps * mu; c[1, 0] = c[0, 1]
-        spec['cij'] = c.tolist()
-        spec['cls'] = 'cubic'
+    classes = {}
+    eps_clause = rng.choice([1e-5, 3e-5, 1e-4])
+    for eps in EPS_SWEEP:
+        spec = sweep_spec(sw, eps)
+        rep = {'op': 'dispatch', 'sweep': sw, 'eps': eps}
+        (oS, S), (oI, I), (oA, A) = (_outcome_obj(spec, w) for w in ('stroh', 'iso', 'auto'))
+        got = {'stroh': oS, 'iso': oI, 'auto': oA if oA != 'ok' else type(A).__name__}
+        classes[str(eps)] = got['auto']
+        ctx.stats.case('oracle:dispatch', (eps, str(sw['dir']), sw['lam'], sw['mu'], str(sw['bframe']), str(sw['m']), str(sw['n']),
+                                           str(sw['transform']), str(sw['xi_uvw']), str(sw['slip_hkl'])),
+                       nontrivial=not degenerate,
+                       sample={'op': 'solve_volterra_dislocation', 'eps': eps, 'anisotropy': sw['dcls'], 'b_frame': sw['bframe'],
+                               'route': sw['route'], 'outcomes': got})
+        bad = [f'{w}: {o} {x}' for w, o, x in (('Stroh', oS, S), ('IsotropicVolterraDislocation', oI, I),
+                                               ('solve_volterra_dislocation', oA, A)) if o not in ('ok', 'err:value')]
+        if bad:
+            ctx.violate('dispatch:raises', f'anisotropy {eps} ({label}): {bad}', rep)
+            continue
+        # ---- the dispatcher solves what one of the solvers solves, with that solver's fields ----------------------
+        ref = None
+        if oS == 'ok':
+            ref = S
+            if oA != 'ok':
+                ctx.violate('dispatch:refused-solvable', f'solve_volterra_dislocation refuses a problem that Stroh solves '
+                            f'(anisotropy {eps}; {label}): {A}', rep)
+            elif type(A) is not am.defect.Stroh:
+                ctx.violate('dispatch:not-stroh', f'solve_volterra_dislocation returns {type(A).__name__} for anisotropic '
+                            f'constants (anisotropy {eps}) that Stroh solves ({label})', rep)
+        elif oI == 'ok':
+            ref = I
+            if oA != 'ok' or type(A) is not am.defect.IsotropicVolterraDislocation:
+                ctx.violate('dispatch:fallback', f'Stroh refuses, the isotropic solver accepts, solve_volterra_dislocation gives '
+                            f'{got["auto"]} (anisotropy {eps}; {label})', rep)
+        elif oA == 'ok':
+            ctx.violate('dispatch:accepts-refused', f'both solvers refuse, solve_volterra_dislocation returns {got["auto"]} '
+                        f'(anisotropy {eps}; {label})', rep)
+        # ---- regime oracle ---------------------------------------------------------------------------------------
+        if oI == 'ok' and inplane == 'no':
+            ctx.violate('iso:out-of-plane-accepted', f'IsotropicVolterraDislocation accepts a Burgers vector with component '
+                        f'{bn_} along n (b = {I.burgers.tolist()}, n = {I.n.tolist()}) that its closed form cannot carry '
+                        f'(anisotropy {eps})', rep)
+        if eps == 0.0 and inplane == 'yes' and (oI != 'ok' or oA != 'ok' or type(A) is not am.defect.IsotropicVolterraDislocation):
+            ctx.violate('dispatch:isotropic', f'isotropic constants, Burgers vector in the slip plane ({label}): isotropic solver '
+                        f'{oI} {I if oI != "ok" else ""}, dispatcher {got["auto"]}', rep)
+        if eps >= 1e-2 and oI == 'ok':
+            ctx.violate('iso:accepts-anisotropic', f'IsotropicVolterraDislocation accepts constants with anisotropy {eps} '
+                        f'({sw["dcls"]}-shaped)', rep)
+        # (from which eps on Stroh succeeds depends on the orientation: the isotropic N is defective and in symmetric
+        #  orientations the eigenvalue splitting grows slower than eps; near-degeneracy is outside the property, so
+        #  nothing is demanded here — the outcomes are recorded in the evidence)
+        if oA != 'ok':
+            prev = None
+            continue
+        # ---- fields of what the dispatcher returned -----------------------------------------------------------------
+        U, E, Sg, K = A.displacement(P), A.strain(P), A.stress(P), A.K_tensor
+        if any(np.iscomplexobj(a) for a in (U, E, Sg, K)) or not all(np.isfinite(a).all() for a in (U, E, Sg, K)):
+            ctx.violate('dispatch:complex', f'{got["auto"]} from solve_volterra_dislocation has complex or non-finite fields '
+                        f'(anisotropy {eps}; {label})', rep)
+            prev = None
+            continue
+        if ref is not None and type(ref) is type(A):
+            d = max(float(np.abs(U - ref.displacement(P)).max()) / bnorm, float((np.abs(E - ref.strain(P)).reshape(len(P), -1).max(axis=1) * rr).max()) / bnorm,
+                    float(np.abs(K - ref.K_tensor).max()) / mu, float(np.abs(A.burgers - ref.burgers).max()) / bnorm,
+                    float(np.abs(A.transform - ref.transform).max()))
+            if d > 1e-9:
+                ctx.violate('dispatch:differs', f'solve_volterra_dislocation and {type(ref).__name__} called with the same '
+                            f'arguments give different solutions (relative difference {d:.3e}; anisotropy {eps}; {label})', rep)
+        if float(np.abs(T.dot(A.burgers) - np.array([be, bn_, bs])).max()) > 3 * tol * bmax + 1e-12 * bnorm:
+            ctx.violate('dispatch:burgers', f'stored Burgers vector has components {T.dot(A.burgers).tolist()} along m, n, ξ, '
+                        f'requested {sw["bframe"]}', rep)
+        for r in (1.0, 0.25):
+            jmp = _jump(A, r, z=rng.choice([0.0, -2.0]))
+            ctx.stats.case('oracle:dispatch-jump', (eps, r, str(sw['dir']), str(sw['bframe']), str(sw['m']), str(sw['n']), str(sw['transform'])))
+            if np.iscomplexobj(jmp) or float(np.abs(jmp - A.burgers).max()) > 1e-6 * bnorm:
+                ctx.violate('dispatch:burgers-jump', f'{got["auto"]} returned by solve_volterra_dislocation at anisotropy {eps}: '
+                            f'displacement jump across the cut at distance {r} is {np.asarray(jmp).tolist()}, Burgers vector '
+                            f'{A.burgers.tolist()} ({label})', dict(rep, r=r))
+                break
+        dU = U - Uo
+        du = float(np.abs(dU - dU[0]).max()) / bnorm             # the closed forms differ by a rigid translation
+        de = float((np.abs(E - Eo).reshape(len(P), -1).max(axis=1) * rr).max()) / bnorm
+        ds = float((np.abs(Sg - So).reshape(len(P), -1).max(axis=1) * rr).max()) / (bnorm * mu) / 4
+        dk = float(np.abs(K - Ko).max()) / float(np.abs(Ko).max())
+        cur = {'displacement': du, 'strain*r': de, 'stress*r/4mu': ds, 'K': dk}
+        bound = LIMIT_C * eps + LIMIT_FLOOR
+        ctx.stats.case('oracle:iso-limit', (eps, str(sw['dir']), sw['lam'], sw['mu'], str(sw['bframe']), str(sw['m']), str(sw['n']), str(sw['transform'])),
+                       sample={'op': 'anisotropy -> 0', 'eps': eps, 'solver': got['auto'], 'b_frame': sw['bframe'],
+                               'relative difference to the complete isotropic closed form': cur})
+        if eps > 0:
+            _track(ctx, 'iso-limit / eps', max(cur.values()) / bound)
+        if max(cur.values()) > bound:
+            ctx.violate('iso-limit', f'{got["auto"]} returned at anisotropy {eps} differs from the closed-form isotropic solution for '
+                        f'the same Burgers vector by {cur} (relative; bound {bound:.1e}) ({label})', rep)
+        elif prev is not None:
+            pe, pU, pE, pK = prev
+            dd = max(float(np.abs((U - pU) - (U - pU)[0]).max()) / bnorm,
+                     float((np.abs(E - pE).reshape(len(P), -1).max(axis=1) * rr).max()) / bnorm, float(np.abs(K - pK).max()) / mu)
+            if dd > 2 * bound:
+                ctx.violate('iso-limit:continuity', f'the solution changes by {dd:.3e} (relative) between anisotropy {pe} and {eps} '
+                            f'({label})', dict(rep, eps_prev=pe))
+        prev = (eps, U, E, K)
+        if clauses and (eps == eps_clause or eps == 0.0):
+            _clauses(ctx, spec, A, rng, 'auto')
+    ctx.extra.setdefault('dispatch_classes', []).append({'anisotropy': sw['dcls'], 'b_frame': sw['bframe'], 'returned': classes})
+    if len(ctx.extra['dispatch_classes']) > 12:
+        ctx.extra['dispatch_classes'].pop()
+
+
+def _observables(s, P):
+    np = _np()
+    out = {'burgers': s.burgers, 'transform': s.transform, 'm': s.m, 'n': s.n, 'xi': s.ξ, 'Cij': s.C.Cij, 'K_tensor': s.K_tensor,
+           'K_coeff': np.array(s.K_coeff), 'preln': np.array(s.preln), 'characterangle': np.array(s.characterangle()),
+           'displacement': s.displacement(P), 'strain': s.strain(P), 'stress': s.stress(P)}
+    for nm in ('p', 'A', 'L', 'k', 'mu', 'nu'):
+        if hasattr(s, nm):
+            out[nm] = np.asarray(getattr(s, nm))
+    return out
+
+
+def _resolve_sequence(ctx, rng):
+    """object-level state: one solver object is solved, read, solved again for a different problem and read again;
+    every observable must equal that of a freshly constructed object (nothing may survive from the first problem), and
+    reading twice gives the same values."""
+    np = _np()
+    kind = rng.choice(['stroh', 'stroh', 'iso'])
+    specs = []
+    for _ in range(3):
+        for _try in range(20):
+            sp = gen_iso_spec(rng) if kind == 'iso' else gen_spec(rng, cls=rng.choice(['cubic', 'orthorhombic', 'monoclinic', 'triclinic']))
+            if _outcome(sp, kind) == 'ok':
+                specs.append(sp)
+                break
+    if len(specs) < 2:
+        return
+    import atomman as am
+    s = build(specs[0], kind)
+    P0 = np.array(gen_points(rng, s, 3, special=False))
+    first = _observables(s, P0)
+    again = _observables(s, P0)
+    ctx.stats.case('oracle:re-solve', (kind, str(specs)), sample={'op': 'solve -> read -> solve -> read', 'solver': kind})
+    rep = {'op': 'resolve', 'solver': kind, 'specs': specs}
+    for k_ in first:
+        if not np.array_equal(first[k_], again[k_], equal_nan=True):
+            ctx.violate(f'{kind}:state', f'{kind}: reading {k_} twice from one object gives different values', rep)
+            return
+    for sp in specs[1:] + [specs[0]]:
+        fresh = build(sp, kind)
+        P = np.array(gen_points(rng, fresh, 3, special=False))
+        C = am.ElasticConstants(Cij=np.array(sp['cij'], dtype=float))
         try:
-            st = build(spec, 'auto')
+            s.solve(C, resolve_burgers(sp), **solver_kwargs(sp))
         except Exception as e:  # noqa
-            ctx.violate('iso-limit:raises', f'weakly anisotropic problem (eps={eps}) refused: {type(e).__name__}: {e}', dict(rep, eps=eps))
+            ctx.violate(f'{kind}:state', f'{kind}: solve() on an existing object raises {type(e).__name__}: {e}', rep)
             return
-        if type(st) is not am.defect.Stroh:
-            ctx.violate('dispatch:anisotropic', f'solve_volterra_dislocation returned {type(st).__name__} for anisotropy {eps}', dict(rep, eps=eps))
+        a, b = _observables(s, P), _observables(fresh, P)
+        diff = [k_ for k_ in b if k_ not in a or not np.array_equal(a[k_], b[k_], equal_nan=True)]
+        if diff:
+            ctx.violate(f'{kind}:state', f'{kind}: after solve() on an existing object {diff} differ from a freshly constructed '
+                        f'solution of the same problem ({sp["cls"]}, route {sp["route"]})', rep)
             return
-        dU = st.displacement(pts) - iso.displacement(pts)
-        du = float(np.abs(dU - dU[0]).max()) / bn            # the two closed forms differ by a rigid translation
-        de = float((np.abs(st.strain(pts) - iso.strain(pts)).reshape(len(pts), -1).max(axis=1) * np.array([1.0, 0.2, 9.0, 3.0])).max()) / bn
-        dk = float(np.abs(st.K_tensor - iso.K_tensor).max()) / float(np.abs(iso.K_tensor).max())
-        ctx.stats.case('oracle:iso-limit', (eps, str(spec0['cij']), str(spec0['m']), str(spec0['n'])),
-                       sample={'op': 'anisotropy -> 0', 'eps': eps, 'displacement_diff': du, 'strain_diff': de, 'K_diff': dk})
-        cur = (du, de, dk)
-        if max(cur) > 20 * eps:
-            ctx.violate('iso-limit', f'Stroh solution at anisotropy {eps} differs from the isotropic closed form by '
-                        f'(displacement, strain*r, K) = {cur} (relative)', dict(rep, eps=eps))
-            return
-        if prev is not None and any(c_ > 0.3 * p_ + 1e-9 for c_, p_ in zip(cur, prev)):
-            ctx.violate('iso-limit:rate', f'difference to the isotropic closed form does not shrink with the anisotropy: '
-                        f'{prev} at 1e-2, {cur} at 1e-3', dict(rep, eps=eps))
-        prev = cur
 
 
 def _orientation_oracle(ctx, spec, s):
@@ -1425,8 +1760,14 @@ def search(ctx, broken):
         if it % 2 == 0:
             _covariance(ctx, spec, rng, kind)
     _search_refusals(ctx, rng, ctx.n(27, 180) * mult)
-    for it in range(ctx.n(3, 30) * mult):
-        _iso_limit(ctx, rng)
+    t1 = time.time()
+    nsw = ctx.n(21, 140) * mult
+    for it in range(nsw):
+        sw = gen_sweep(rng, cls=CLASSES[it % len(CLASSES)], bkind=SWEEP_BKINDS[it % len(SWEEP_BKINDS)])
+        _dispatch_sweep(ctx, sw, rng, clauses=it < ctx.n(7, 42) * mult)
+    ctx.extra['t_dispatch_sweep_s'] = round(time.time() - t1, 2)
+    for it in range(ctx.n(4, 40) * mult):
+        _resolve_sequence(ctx, rng)
     ctx.extra['t_search_s'] = round(time.time() - t0, 2)
 
 
@@ -1447,6 +1788,16 @@ def replay(ctx, payload):
         for _ in range(4):
             _covariance(ctx, r['spec'], rng, kind)
         print('replay', op, kind, 'violations now:', len(ctx.violations))
+    elif op == 'dispatch' and 'sweep' in r:
+        _dispatch_sweep(ctx, r['sweep'], rng)
+        if ctx.driver is not None:
+            for eps in EPS_SWEEP:
+                _dispatch_case(ctx, r['sweep'], eps)
+        print('replay dispatch sweep: violations now:', len(ctx.violations))
+    elif op == 'resolve':
+        for _ in range(40):
+            _resolve_sequence(ctx, rng)
+        print('replay re-solve sequences: violations now:', len(ctx.violations))
     elif op == 'refusal' and 'spec' in r:
         spec = r['spec']
         print('replay refusal:', {w: _outcome(spec, w) for w in ('stroh', 'auto')}, 'expected', r.get('expected'))
@@ -1484,6 +1835,9 @@ THEOREMS = [
     'C12.iso_stress_is_hooke', 'C12.iso_symmetric', 'C12.iso_falls_as_inv_r', 'C12.iso_burgers_jump',
     'C12.iso_jump_general', 'C12.iso_K_symm', 'C12.iso_K_posdef',
     'C12.thetaOf_halfplanes', 'C12.iso_strain_is_symgrad_deriv', 'C12.iso_stress_div_free_deriv',
+    # entry point solve_volterra_dislocation; what the isotropic solver accepts (repo fix 9765d33)
+    'C12.isoInPlaneOk_bound', 'C12.iso_accept_jump', 'C12.dispatch_iso_jump', 'C12.dispatch_stroh_first',
+    'C12.dispatch_iso_iff', 'C12.dispatch_none_iff',
 ]
 PARTIAL = {
     'displacement jump (Stroh)': 'burgers_closure / burgers_jump_limit (one-sided limits of the coded displacement with the '
